@@ -6,6 +6,7 @@ use std::rc::Rc;
 use microscpi::parser::{self, ParseError};
 use microscpi::{Adapter, Error, ErrorQueue, Node, StaticErrorQueue, Value};
 
+use crate::alloccount::Region;
 use crate::gen::with_iface;
 use crate::macro_src;
 use crate::support::{block_on, fmt_err, hex, leak_str, pend, std_error, unhex, TVal, TestIface, STD_ERRORS};
@@ -18,9 +19,15 @@ use crate::CommandDefinition;
 pub struct RunReq {
     pub inputs: Vec<Vec<u8>>,
     pub pend: usize,
+    /// `ALLOC RUN`: quiet mode, the result is the number of heap allocations
+    /// made between entering and leaving the `run` calls.
+    pub alloc: bool,
 }
 
 pub fn run_with<I: TestIface, W: TestWriter>(req: &RunReq) -> String {
+    if req.alloc {
+        return alloc_run_with::<I, W>(req);
+    }
     let mut iface = I::default();
     iface.set_pend(req.pend);
     let mut writer = W::make(req.pend);
@@ -43,6 +50,46 @@ pub fn run_with<I: TestIface, W: TestWriter>(req: &RunReq) -> String {
     )
 }
 
+/// `ALLOC RUN`: the same calls as [run_with] on a quiet interface; only what
+/// happens inside `run` (driven by the allocation-free [block_on]) is counted.
+fn alloc_run_with<I: TestIface, W: TestWriter>(req: &RunReq) -> String {
+    let mut iface = I::default();
+    iface.set_pend(0);
+    iface.set_quiet(true);
+    let mut writer = W::make(0);
+    let mut total: usize = 0;
+    for input in &req.inputs {
+        let region = Region::enter();
+        let remaining = block_on(iface.run(input, &mut writer));
+        total += region.finish();
+        core::hint::black_box(remaining);
+    }
+    format!("alloc={}", total)
+}
+
+/// `SELFTEST alloc-loud`: positive control for `ALLOC RUN`.  The same counted
+/// `run` call on an interface that is *not* quiet: the input `&\n` is an error (-113),
+/// the recording error handler builds a `String` and pushes it into a `Vec`
+/// from inside `run`, so the counter must see allocations.
+pub fn alloc_loud_selftest() -> String {
+    fn go<I: TestIface>() -> usize {
+        let mut iface = I::default();
+        let mut writer: heapless::Vec<u8, 16> = heapless::Vec::new();
+        let region = Region::enter();
+        let remaining = block_on(iface.run(b"&\n", &mut writer));
+        let total = region.finish();
+        core::hint::black_box(remaining);
+        total
+    }
+    let total = with_iface!(crate::gen::IFACE_NAMES[0], go, 0);
+    if total > 0 {
+        String::from("alloc-loud=ok")
+    }
+    else {
+        String::from("alloc-loud=FAIL")
+    }
+}
+
 // ---------------------------------------------------------------------------
 // PROC
 
@@ -51,6 +98,9 @@ pub struct ProcReq {
     pub sched: Vec<usize>,
     pub fault: Option<(usize, i32)>,
     pub pend: usize,
+    /// `ALLOC PROC`: quiet mode, the result is the number of heap allocations
+    /// made between entering and leaving `process`.
+    pub alloc: bool,
 }
 
 /// Transport error of the scripted adapter.
@@ -71,6 +121,9 @@ pub struct ScriptAdapter {
     pend: usize,
     calls: usize,
     pub trace: Vec<String>,
+    /// Quiet mode (`ALLOC PROC`): successful calls are only counted.
+    quiet: bool,
+    pub events: usize,
 }
 
 impl ScriptAdapter {
@@ -83,6 +136,8 @@ impl ScriptAdapter {
             pend: req.pend,
             calls: 0,
             trace: Vec::new(),
+            quiet: req.alloc,
+            events: 0,
         }
     }
 
@@ -101,13 +156,26 @@ impl ScriptAdapter {
         }
         Ok(())
     }
+
+    /// Records an event of the trace; in quiet mode the event text is not
+    /// even built (the closure is not called).
+    fn record(&mut self, event: impl FnOnce() -> String) {
+        if self.quiet {
+            self.events += 1;
+        }
+        else {
+            self.trace.push(event());
+        }
+    }
 }
 
 impl Adapter for ScriptAdapter {
     type Error = TransportError;
 
     async fn read(&mut self, dst: &mut [u8]) -> Result<usize, TransportError> {
-        pend(self.pend).await;
+        if self.pend > 0 {
+            pend(self.pend).await;
+        }
         self.enter()?;
         let remaining = self.stream.len() - self.pos;
         let count = match self.sched.pop_front() {
@@ -121,26 +189,34 @@ impl Adapter for ScriptAdapter {
         };
         dst[..count].copy_from_slice(&self.stream[self.pos..self.pos + count]);
         self.pos += count;
-        self.trace.push(format!("R{}/{}", count, dst.len()));
+        let dst_len = dst.len();
+        self.record(|| format!("R{}/{}", count, dst_len));
         Ok(count)
     }
 
     async fn write(&mut self, src: &[u8]) -> Result<(), TransportError> {
-        pend(self.pend).await;
+        if self.pend > 0 {
+            pend(self.pend).await;
+        }
         self.enter()?;
-        self.trace.push(format!("W:{}", hex(src)));
+        self.record(|| format!("W:{}", hex(src)));
         Ok(())
     }
 
     async fn flush(&mut self) -> Result<(), TransportError> {
-        pend(self.pend).await;
+        if self.pend > 0 {
+            pend(self.pend).await;
+        }
         self.enter()?;
-        self.trace.push(String::from("F"));
+        self.record(|| String::from("F"));
         Ok(())
     }
 }
 
 pub fn proc_with<I: TestIface, const N: usize>(req: &ProcReq) -> String {
+    if req.alloc {
+        return alloc_proc_with::<I, N>(req);
+    }
     let mut iface = I::default();
     iface.set_pend(req.pend);
     let mut adapter = ScriptAdapter::new(req);
@@ -163,6 +239,20 @@ pub fn proc_with<I: TestIface, const N: usize>(req: &ProcReq) -> String {
         end,
         queue
     )
+}
+
+/// `ALLOC PROC`: the same call as [proc_with] on a quiet interface and a quiet
+/// adapter (its stream and schedule are copied before counting starts).
+fn alloc_proc_with<I: TestIface, const N: usize>(req: &ProcReq) -> String {
+    let mut iface = I::default();
+    iface.set_pend(0);
+    iface.set_quiet(true);
+    let mut adapter = ScriptAdapter::new(req);
+    let region = Region::enter();
+    let result = block_on(iface.process::<N, ScriptAdapter>(&mut adapter));
+    let total = region.finish();
+    core::hint::black_box(result.is_ok());
+    format!("alloc={}", total)
 }
 
 // ---------------------------------------------------------------------------
